@@ -101,10 +101,14 @@ def notify_wait(g, objs, ntasks, body):
         # two registered waiters, one of them is dropped after a notify_one may have reached it (F14 shape)
         a, b = ("h0", "h1") if r.chance(1, 2) else ("h1", "h0")
         out = [f"n_new {n} {a}", f"n_new {n} {b}", f"n_enable {n} {a}", f"n_enable {n} {b}"]
+        if r.chance(1, 3):
+            # a third registered waiter; which of them is given up (first, middle, last) varies
+            out += [f"n_new {n} h2", f"n_enable {n} h2"]
         if r.chance(1, 2):
-            out.append(f"n_notify_one {n}")
+            out.append(f"n_notify_one {n}" if r.chance(2, 3) else f"n_notify_waiters {n}")
         out += _filler(g, objs)
-        out += [f"n_drop {n} {a}", f"n_await {n} {b}"]
+        # (the drop of a registered waiter races the other tasks' notify_one / notify_waiters)
+        out += [f"n_drop {n} {a}", f"n_await {n} {b}"] if r.chance(2, 3) else [f"n_drop {n} {b}", f"n_await {n} {a}"]
         return out
     h = f"h{r.below(3)}"
     out = [f"n_new {n} {h}"]
@@ -136,7 +140,7 @@ def notify_signal(g, objs, ntasks, body):
     n = r.choice(_names(objs, "tnotify"))
     out = []
     for _ in range(1 + (1 if r.chance(1, 4) else 0)):
-        out.append(f"n_notify_waiters {n}" if r.chance(1, 4) else f"n_notify_one {n}")
+        out.append(f"n_notify_waiters {n}" if r.chance(1, 3) else f"n_notify_one {n}")
     return out
 
 
